@@ -440,6 +440,10 @@ type Walker struct {
 	Monitors bool
 	// OnPathEnd, when set, is called with the node at the end of every path that stayed on the specification.
 	OnPathEnd func(e *Env)
+	// OnDiverge, when set, is called when a submission was admitted that the specification
+	// refuses: the node is then in a pool state outside the state graph (cur is the last
+	// state it matched, trace the path so far).
+	OnDiverge func(e *Env, cur *tlc.Node, obs *Obs, path []string)
 	MaxLen    int
 
 	mu       sync.Mutex
@@ -773,6 +777,13 @@ func (w *Walker) RunPath(target *tlc.Node, rng *rand.Rand) error {
 			// the real node left the specification: model drift unless a clause was violated
 			if len(fs) == 0 {
 				w.noteDrift(fmt.Sprintf("universe %s after %s: result class %d (spec code %d); %s", m.U.Name, lab, res.Class, code, why))
+			}
+			if w.OnDiverge != nil && res.Class == 1 && (l.Name == "ProcessTx" || l.Name == "MaybeAcceptTx") {
+				var path []string
+				for _, t := range trace {
+					path = append(path, t.Action)
+				}
+				w.OnDiverge(env, cur, obs, path)
 			}
 			return nil
 		}
